@@ -1193,81 +1193,123 @@ def _adaptive_driver(model: Model, Z: RuleResult, I: RuleResult, L: RuleResult, 
         Z.ok(solve.fq, "row 0 of the adaptive result is the (flattened) y0 argument, and the buffer is only reshaped on return")
     else:
         Z.bad(solve, solve.node, "row 0 of the adaptive solvers' result must be the initial value itself (yt[0] = self.y0 = y0.reshape(-1))")
-    # ---- setup: time reversal
-    tsp, fcnp = setup.params()[2], setup.params()[1]
-    ifs = [s for s in setup.node.body if isinstance(s, ast.If)]
-    rev = None
-    for s in ifs:
-        asg_b = {(_self_attr(a.targets[0])): a.value for a in s.body if isinstance(a, ast.Assign) and _self_attr(a.targets[0])}
-        asg_o = {(_self_attr(a.targets[0])): a.value for a in s.orelse if isinstance(a, ast.Assign) and _self_attr(a.targets[0])}
-        if "ts" in asg_b and "func" in asg_b and "ts" in asg_o and "func" in asg_o:
-            rev = (s, asg_b, asg_o)
-    if rev is None:
-        raise AnalysisError("C07-V: the branch on the direction of the time grid was not found in setup")
-    s, asg_b, asg_o = rev
-    sdefs2 = function_defs(setup.node)
+    # ---- setup: time reversal (decided for both directions by a case split on the sign of ts[1] - ts[0])
+    tsp, fcnp, pp = setup.params()[2], setup.params()[1], setup.params()[4]
 
-    def signs(asg):
+    def direction_test(t, decreasing):
+        """value of a test that compares ts[1] with ts[0] (or their difference with 0) in the given case; None if it is another test"""
+        if not (isinstance(t, ast.Compare) and len(t.ops) == 1):
+            return None
+
+        def hk(e):
+            if isinstance(e, ast.Subscript) and isinstance(e.value, ast.Name) and e.value.id == tsp and isinstance(e.slice, ast.Constant):
+                return S("ts%d" % e.slice.value)
+            if isinstance(e, ast.Name):
+                return envd.get(e.id)
+            return None
+        try:
+            d = eval_expr(t.left, {}, hk) - eval_expr(t.comparators[0], {}, hk)
+        except Uninterpretable:
+            return None
+        op = t.ops[0]
+        if d.eq(S("ts1") - S("ts0")):
+            neg = True       # d < 0 <=> decreasing
+        elif d.eq(S("ts0") - S("ts1")):
+            neg = False
+        else:
+            return None
+        if isinstance(op, (ast.Lt, ast.LtE)):
+            return decreasing if neg else not decreasing
+        if isinstance(op, (ast.Gt, ast.GtE)):
+            return (not decreasing) if neg else decreasing
+        return None
+
+    results = {}
+    for decreasing in (True, False):
+        envd: Dict[str, Rat] = {}
+        out = {}
+
         def hook(e):
+            if isinstance(e, ast.IfExp):
+                v = direction_test(e.test, decreasing)
+                if v is None:
+                    raise Uninterpretable("conditional on something other than the direction: %s" % ast.unparse(e.test))
+                return eval_expr(e.body if v else e.orelse, envd, hook)
+            if isinstance(e, ast.Subscript) and isinstance(e.value, ast.Name) and e.value.id == tsp and isinstance(e.slice, ast.Constant):
+                return S("ts%d" % e.slice.value)
+            if isinstance(e, ast.Name):
+                return envd.get(e.id, S(e.id))
+            return None
+
+        def run(stmts):
+            for st in stmts:
+                if isinstance(st, ast.If):
+                    v = direction_test(st.test, decreasing)
+                    if v is None:
+                        continue
+                    run(st.body if v else st.orelse)
+                elif isinstance(st, ast.Assign) and len(st.targets) == 1:
+                    tg = st.targets[0]
+                    a = _self_attr(tg)
+                    if isinstance(st.value, ast.Lambda):
+                        if a is not None:
+                            out[a] = (st.value, dict(envd))
+                        continue
+                    try:
+                        v = eval_expr(st.value, envd, hook)
+                    except Uninterpretable:
+                        continue
+                    if isinstance(tg, ast.Name):
+                        envd[tg.id] = v
+                    elif a is not None:
+                        out[a] = v
+        run(setup.node.body)
+        if "ts" not in out or "func" not in out or not isinstance(out["func"], tuple):
+            raise AnalysisError("C07-V: setup no longer assigns self.ts and self.func = lambda t, y: ... in the %s case" % ("decreasing" if decreasing else "increasing"))
+        lam, lenv = out["func"]
+        if len(lam.args.args) != 2:
+            raise AnalysisError("C07-V: self.func is not a two-argument lambda")
+        ta, ya = lam.args.args[0].arg, lam.args.args[1].arg
+        rec = []
+
+        def lhook(e):
             if isinstance(e, ast.Call):
                 if isinstance(e.func, ast.Attribute) and e.func.attr in ("reshape", "view", "contiguous"):
-                    return eval_expr(e.func.value, env, hook)
-                if isinstance(e.func, ast.Name) and e.func.id == fcnp:
-                    tm = eval_expr(e.args[0], env, hook)
-                    st = eval_expr(e.args[1], env, hook)
-                    rec.append((tm, st))
+                    return eval_expr(e.func.value, lenv, lhook)
+                if isinstance(e.func, ast.Name) and e.func.id == fcnp and len(e.args) >= 2:
+                    rec.append((eval_expr(e.args[0], lenv, lhook), eval_expr(e.args[1], lenv, lhook), [ast.unparse(a) for a in e.args[2:]]))
                     return S("FCN")
+            if isinstance(e, ast.IfExp):
+                v = direction_test(e.test, decreasing)
+                if v is not None:
+                    return eval_expr(e.body if v else e.orelse, lenv, lhook)
             if isinstance(e, ast.Name):
-                return S(e.id)
+                return lenv.get(e.id, S(e.id))
             return None
-        rec = []
-        env = {}
-        tsv = eval_expr(asg["ts"], env, hook)
-        lam = asg["func"]
-        if not isinstance(lam, ast.Lambda) or len(lam.args.args) != 2:
-            raise Uninterpretable("self.func is not a two-argument lambda")
-        ta, ya = lam.args.args[0].arg, lam.args.args[1].arg
-        body = eval_expr(lam.body, env, hook)
+        try:
+            body = eval_expr(lam.body, lenv, lhook)
+        except Uninterpretable as e:
+            raise AnalysisError("C07-V: cannot normalise the dynamics closure: %s" % e)
         if len(rec) != 1:
-            raise Uninterpretable("the lambda does not call the dynamics exactly once")
-        return tsv, body, rec[0][0], rec[0][1], ta, ya
-    try:
-        tb, bb, tmb, stb, ta, ya = signs(asg_b)
-        to, bo, tmo, sto, ta2, ya2 = signs(asg_o)
-    except Uninterpretable as e:
-        raise AnalysisError("C07-V: cannot normalise the reversal branch: %s" % e)
-    # test: direction < 0 where direction = ts[1] - ts[0]
-    tt = s.test
-    neg_first = None
-    if isinstance(tt, ast.Compare) and len(tt.ops) == 1 and isinstance(tt.comparators[0], ast.Constant) and tt.comparators[0].value == 0:
-        l_ = tt.left
-        if isinstance(l_, ast.Name) and len(sdefs2.get(l_.id, [])) == 1:
-            l_ = sdefs2[l_.id][0]
-        if ast.unparse(l_).replace(" ", "") == "%s[1]-%s[0]" % (tsp, tsp):
-            neg_first = isinstance(tt.ops[0], (ast.Lt, ast.LtE))
-            if isinstance(tt.ops[0], (ast.Gt, ast.GtE)):
-                neg_first = False
-    if neg_first is None:
-        raise AnalysisError("C07-V: the direction test is not `ts[1] - ts[0] < 0` (or > 0)")
-    neg, pos_ = ((tb, bb, tmb, stb, ta, ya), (to, bo, tmo, sto, ta2, ya2)) if neg_first else ((to, bo, tmo, sto, ta2, ya2), (tb, bb, tmb, stb, ta, ya))
-    okneg = neg[0].eq(-S(tsp)) and neg[1].eq(-S("FCN")) and neg[2].eq(-S(neg[4])) and neg[3].eq(S(neg[5]))
-    okpos = pos_[0].eq(S(tsp)) and pos_[1].eq(S("FCN")) and pos_[2].eq(S(pos_[4])) and pos_[3].eq(S(pos_[5]))
+            raise AnalysisError("C07-V: the dynamics closure does not call the user function exactly once")
+        results[decreasing] = (out["ts"], body, rec[0][0], rec[0][1], rec[0][2], ta, ya, lam)
+    tsv, body, tm, stt, rest, ta, ya, lam = results[True]
+    okneg = tsv.eq(-S(tsp)) and body.eq(-S("FCN")) and tm.eq(-S(ta)) and stt.eq(S(ya))
     if okneg:
         V.ok(setup.fq, "decreasing grid: integrate s = -t with dynamics -f(-s, y): grid and dynamics are negated together")
     else:
-        V.bad(setup, s, "for a decreasing grid the grid must be negated and the dynamics become -f(-t, y) (found ts'=%r, f'=%r at time %r)" % (neg[0], neg[1], neg[2]))
+        V.bad(setup, enclosing_stmt(lam), "for a decreasing grid the grid must be negated and the dynamics become -f(-t, y): found grid %r, dynamics %r evaluated at time %r" % (tsv, body, tm))
+    tsv2, body2, tm2, stt2, rest2, ta2, ya2, lam2 = results[False]
+    okpos = tsv2.eq(S(tsp)) and body2.eq(S("FCN")) and tm2.eq(S(ta2)) and stt2.eq(S(ya2))
     if okpos:
         V.ok(setup.fq, "increasing grid: grid and dynamics are used unchanged")
     else:
-        V.bad(setup, s, "for an increasing grid the grid and the dynamics must be used unchanged (found ts'=%r, f'=%r at time %r)" % (pos_[0], pos_[1], pos_[2]))
-    # the extra parameters reach the dynamics in both branches
-    pp = setup.params()[4]
-    for name_, asg in (("decreasing" if neg_first else "increasing", asg_b), ("increasing" if neg_first else "decreasing", asg_o)):
-        calls = [c for c in ast.walk(asg["func"]) if isinstance(c, ast.Call) and isinstance(c.func, ast.Name) and c.func.id == fcnp]
-        if calls and [ast.unparse(a) for a in calls[0].args[2:]] == ["*" + pp]:
+        V.bad(setup, enclosing_stmt(lam2), "for an increasing grid the grid and the dynamics must be used unchanged: found grid %r, dynamics %r at time %r" % (tsv2, body2, tm2))
+    for name_, r_, lm_ in (("decreasing", rest, lam), ("increasing", rest2, lam2)):
+        if r_ == ["*" + pp]:
             V.ok(setup.fq, "%s grid: the extra parameters are forwarded as *%s" % (name_, pp))
         else:
-            V.bad(setup, s, "%s grid: the dynamics are not called with the extra parameters *%s" % (name_, pp))
+            V.bad(setup, enclosing_stmt(lm_), "%s grid: the dynamics are not called with the extra parameters *%s" % (name_, pp))
 
 
 # ------------------------------------------------------------------------------------------ tuple states
